@@ -1337,16 +1337,29 @@ class Zygote:
             fresh = open(stamp_file).read() == stamp
         except OSError:
             fresh = False
+        lock = None
+        if not fresh:
+            import fcntl
+
+            lock = open(os.path.join(env["PYTHONPYCACHEPREFIX"], "warmup.lock"), "w")
+            fcntl.flock(lock, fcntl.LOCK_EX)  # concurrent workers: one fills the cache, the others find it fresh
+            try:
+                fresh = open(stamp_file).read() == stamp
+            except OSError:
+                fresh = False
         if not fresh:
             w = subprocess.run(pre + [sys.executable, "-c", "from vf.props.c06 import zygote_imports; zygote_imports()"],
                                env=wenv, cwd=VERIF, stdin=subprocess.DEVNULL, stdout=subprocess.DEVNULL, stderr=subprocess.PIPE)
             if w.returncode != 0:
+                lock.close()
                 raise HarnessError("C06 zygote warm-up failed: %s" % w.stderr.decode(errors="replace")[-2000:])
             if _source_stamp() == stamp:
                 tmp = stamp_file + ".%d" % os.getpid()
                 with open(tmp, "w") as f:
                     f.write(stamp)
                 os.replace(tmp, stamp_file)
+        if lock is not None:
+            lock.close()
         # 2. the zygote proper: never writes, always finds complete bytecode
         cmd = pre + [sys.executable, "-c", "import sys; from vf.props.c06 import zygote_main; zygote_main()"]
         import tempfile
@@ -1418,6 +1431,14 @@ class Zygote:
 
 
 _ZYG = None
+
+
+def close_zygote():
+    """Close this process's own zygote (never one inherited from a parent process)."""
+    global _ZYG
+    if _ZYG is not None and getattr(_ZYG, "pid_owner", None) == os.getpid():
+        _ZYG.close()
+    _ZYG = None
 
 
 def zygote():
@@ -1516,13 +1537,17 @@ def explicit_case(case, res):
     return c
 
 
-MAX_PERTURB = 12
+MAX_PERTURB = 8
+CONFIRM_BUDGET_S = 150
 
 
 def confirm_in_zygote(case, classify_fn=None):
     """A failure seen in-process -> replayable case (search form first, then explicit path), trying a few heap layouts.
     Returns (case, msg) or None when no tried layout reproduces it."""
+    t_end = time.time() + CONFIRM_BUDGET_S
     for k in range(MAX_PERTURB):
+        if k and time.time() > t_end:
+            break
         c = dict(case)
         c["perturb"] = k
         c.pop("gen", None)
@@ -2246,16 +2271,15 @@ def _worker(arg):
         got = confirm_in_zygote(case)
         if got is None:
             stats.unreproduced += 1
-            stats.notes.append("failure seen in-process but not in %d zygote heap layouts: %s" % (MAX_PERTURB, msg[:300]))
+            stats.notes.append("failure seen in-process but not reproduced in the zygote (up to %d heap layouts, %d s): %s" % (MAX_PERTURB, CONFIRM_BUDGET_S, msg[:300]))
             continue
         out.append(got)
-    z = _ZYG
-    if z is not None:
-        z.close()
+    close_zygote()
     return stats, out
 
 
 def run(ctx):
+    close_zygote()  # the one used for the witnesses: the workers must not inherit its pipes
     n = ctx.scale(16, 2500)
     budget = ctx.scale(40, 3000)
     args = []
@@ -2271,6 +2295,4 @@ def run(ctx):
                   "functions_failing_codegen": h.get("codegen_failed:" + t, 0)}
     ctx.extra["per_target"] = per
     ctx.extra["targets_covered"] = [t for t in TARGETS if per[t]["frames"]]
-    z = _ZYG
-    if z is not None:
-        z.close()
+    close_zygote()
